@@ -28,6 +28,9 @@ func findAccountState(states *[]types.State, account *types.Account) int {
 		if state.Account == nil {
 			continue
 		}
+		if state.Account.Type != account.Type {
+			continue
+		}
 		if state.Account.Id == account.Id && state.Account.Id != "" && &state.Account.Id != nil {
 			return pos
 		} else if state.Account.Id == account.Id && state.Account.Id == "" {
